@@ -6,13 +6,17 @@ SPEC = dict(
     rule="structured data generated per helper (integers incl. int64/uint64 extremes, floats incl. +-Inf, NaN, -0, subnormals, strings "
          "incl. empty / binary / number-like, field lists with repeated fields, nil stream entries, 0-6 elements) encoded by the harness in "
          "the RESP2 and the RESP3 reply shape (scalars, slices, string/int maps as array and map, ZSCORE(S) flat and nested, XRANGE, "
-         "XREAD map and array, SCAN, LMPOP, ZMPOP, FT.SEARCH x {scores, attributes}, FT.AGGREGATE with/without cursor, GEOSEARCH x "
+         "string-encoded integers in non-canonical spellings (leading zeros, '+', '-0', padded int64 extremes, out-of-range) with the decimal "
+         "reading expected and non-decimal strings (0x / 0b / 0o prefixes, '_' separators, blanks, exponents) with a number error expected, "
+         "through AsInt64, AsUint64, AsIntSlice, AsIntMap; XREAD map and array, SCAN, LMPOP, ZMPOP, FT.SEARCH x {scores, attributes}, FT.AGGREGATE with/without cursor, GEOSEARCH x "
          "{dist, hash, coord}, generic maps); the real accessor's output is compared with the data the reply was generated from (direct "
          "oracle) and with the model; mutated and random trees ride along; a case is non-trivial when the tree has more than one node",
-    trusted=["strconv.ParseFloat / FormatFloat, float64(int64), strconv.ParseInt(s,0,64), json.Unmarshal: parameters of the model",
+    trusted=["strconv.ParseFloat / FormatFloat, float64(int64), json.Unmarshal: parameters of the model (ParseFloat also accepts hex floats, "
+             "Inf/Infinity/NaN in any case, as C strtod does; that is the accessors' documented float reading and is not restricted here)",
+             "strconv.ParseInt / ParseUint base 10 are modelled concretely (parse_int10 / parse_uint10) and exercised by the tie with non-canonical spellings",
              "the reply shapes of the Redis commands are the spec-side encoders of Proofs/AccFaithful.v (and, independently, the harness encoders)"],
     assumptions=["fmt_parse: strconv.ParseFloat reads back the server's formatting of a double (forall f, pf e (fmt f) = (f, true)); "
-                 "fmt_nonempty; pi0_print: ParseInt(s,0,64) reads back a printed int64 — Section hypotheses of the float / int-map theorems, "
+                 "fmt_nonempty — Section hypotheses of the float theorems, "
                  "exercised on every run with Go's own FormatFloat/ParseFloat",
                  "FT.SEARCH RESP2: document keys are non-empty and do not parse as floats (key_ok, explicit hypothesis: the accessor's "
                  "heuristic is lossy otherwise, by design)"],
@@ -21,12 +25,14 @@ SPEC = dict(
 MANIFEST = dict(
     text="Proof: for all structured data (unbounded lists, arbitrary byte strings) each accessor applied to the encoding of the data in "
          "each reply shape the server uses returns exactly the data: integers (decimal print/parse round trip proved for the whole "
-         "int64 / uint64 range), strings, booleans, floats, slices in order, string/int/message maps in array and map shape with "
+         "int64 / uint64 range; every decimal spelling is read as its base-ten value and everything else is a number error, for AsInt64, "
+         "AsIntSlice and AsIntMap), strings, booleans, floats, slices in order, string/int/message maps in array and map shape with "
          "last-value-wins for repeated fields, ZSCORE(S) flat and nested, XRANGE / XREAD (map and array shape, map and slice results), SCAN, "
          "LMPOP, ZMPOP, FT.SEARCH RESP2 (all four score/attribute combinations) and RESP3, FT.AGGREGATE RESP2/RESP3 with and without "
          "cursor, GEOSEARCH with every WITH* combination, DecodeSliceOfJSON. The model is tied to message.go on every run, and the real "
          "accessors are compared with the generator's data by a direct oracle.",
-    note="Float parsing/printing and base-0 integer parsing are Section hypotheses (read-back of the server's formatting), not axioms. "
+    note="Float parsing/printing is a Section hypothesis (read-back of the server's formatting), not an axiom. Repaired in the repository "
+         "(fix commit in known_findings.d/acc.json): AsIntMap read string values with base-prefix detection (\"0100\" = 64). "
          "The FT.SEARCH RESP2 heuristic needs keys that are non-empty and not floats: explicit validity condition. The JSON decoder is "
          "abstract (only success/failure). Coq kernel + VM, Go toolchain, python driver trusted.",
     technique="Coq proof (list induction, decimal round trip, case analysis per reply shape) + differential run of model vs implementation",
